@@ -10,7 +10,9 @@ RULE = ("documents generated from segments with unique and with duplicated field
         "documents reached, transitions = one structural operation (order_first/last/before/after with indexed and "
         "unindexed keys, sort_fields, indexed/unindexed set and delete, insert/append of a new paragraph) applied to "
         "model and implementation; traces = complete histories replayed in tree mode; non-trivial = states other than "
-        "the initial document")
+        "the initial document.  Route units: operations whose keys are field-name tokens / (name, 0) / negative indices / other "
+        "spellings, sort_fields(key=...), replacement and deletion through the other public entry points, paragraphs built by "
+        "from_dict / from_kvpairs; origin units: the file object obtained from another kind of input")
 BUDGET = {"quick": 240, "thorough": 3000}
 NL = "any"
 
@@ -18,7 +20,18 @@ NL = "any"
 def bounds(tier):
     return {"documents": len(docs(0)), "tree_depth": 2 if tier == "quick" else 3,
             "graph_depth": 3 if tier == "quick" else 4,
-            "graph_alphabet": "moves with unindexed keys and index 0/last, sort, append, insert(0)"}
+            "graph_alphabet": "moves with unindexed keys and index 0/last, sort, append, insert(0)",
+            "routes": "depth 1 on every document (and depth 2, before and after every operation of the small alphabet, on %d "
+                      "documents): moves whose field or reference is named by its field-name token, by (name, 0) where the name "
+                      "is unique, by a negative index, by another spelling; sort_fields(key=f) for f in %s; indexed and "
+                      "unindexed replacement / deletion through %s / %s and clear(); new paragraphs built by from_dict() and by "
+                      "from_kvpairs() (also with a repeated name) inserted at every index; after every such step every way of "
+                      "reading the paragraphs and of dumping is compared with the model"
+                      % (len(route_docs2(0)), sorted(k for k in _doc.SORT_KEYS if k != "default"),
+                         ", ".join(_doc.SET_HOWS[1:]), ", ".join(h for h in _doc.DEL_HOWS[1:] if h != "popitem")),
+            "origins": "the file object obtained from %s instead of a list of str lines: the small alphabet at depth 1 "
+                       "(depth 2 in the thorough tier) on every document ('built': the full alphabet at depth 1 and the small one at depth 2 - thorough: "
+                       "the full one at depth 2 - on the documents that construction can produce)" % ", ".join(_doc.ORIGINS[1:])}
 
 
 def assumptions():
@@ -26,7 +39,14 @@ def assumptions():
             "a deleted field's own comment lines may go or stay", "a new paragraph is separated by 1-2 blank lines and "
             "may land on either side of free comments in the gap (docstring of insert)",
             "out-of-range indices, absent keys and self-relative moves are outside the statement",
-            "sort order = stable sort on the lower-cased name"]
+            "sort order = stable sort on the lower-cased name (on key(name) when a key function is given)",
+            "routes: (name, -k) counts the occurrences of a repeated name from the last one (the library's own error message "
+            "documents -1); for a name that occurs once only (name, 0) is used (a paragraph without repeated names refuses any "
+            "other index)",
+            "routes: a paragraph taken out of another parsed file cannot be inserted (refused by design: it already has a "
+            "parent) and is not enumerated",
+            "origins: 'built' starts from paragraphs made with from_dict() appended to new_empty_file(); it is used for the "
+            "documents whose text is exactly what that construction dumps"]
 
 
 def docs(seed):
@@ -134,6 +154,82 @@ def ops_small(doc):
     return ops
 
 
+def _alt_keys(par, k):
+    """other legitimate spellings of the key k (a name or (name, i)) that denote the same field(s)"""
+    if isinstance(k, str):
+        c = len(_doc.occ(par, k))
+        if c != 1:
+            return []
+        return [(k, 0), ("tok", k, 0), k.swapcase(), (k.swapcase(), 0)]
+    n, i = k
+    c = len(_doc.occ(par, n))
+    return [("tok", n, i), (n, i - c), (n.swapcase(), i)]
+
+
+def ops_routes(doc, small=False):
+    ops = []
+    ps = _doc.pars(doc)
+    set_hows = ("raw", "view-raw") if small else _doc.SET_HOWS[1:]
+    del_hows = ("pop",) if small else _doc.DEL_HOWS[1:]
+    sort_keys = ("case-sensitive",) if small else sorted(k for k in _doc.SORT_KEYS if k != "default")
+    for pi, par in enumerate(ps):
+        keys = _keys(par, "ends" if small else "all")
+        for k in keys:
+            for a in _alt_keys(par, k)[1 if small and isinstance(k, str) else 0:2 if small else None]:
+                ops.append(("first", pi, a))
+                ops.append(("last", pi, a))
+                for r in keys:
+                    if small and not isinstance(r, str):
+                        continue
+                    ops.append(("before", pi, a, r))
+                    ops.append(("after", pi, a, r))
+                    for ra in ([] if small else _alt_keys(par, r)[:2]):
+                        ops.append(("before", pi, k, ra))
+                        ops.append(("after", pi, a, ra))
+                if not small:
+                    ops.append(("set", pi, a, "z"))
+                    ops.append(("del", pi, a))
+            for how in set_hows:
+                for val in (("z",) if small else ("z", "z\n zz")):
+                    ops.append(("set", pi, k, val, how))
+            for how in del_hows:
+                ops.append(("del", pi, k, how))
+        for kn in sort_keys:
+            ops.append(("sort", pi, kn))
+        if par and not small:
+            ops.append(("clear", pi))
+            k0 = keys[0]
+            for how in ("update", "raw", "view-raw", "view-opts"):
+                ops.append(("set", pi, k0, _doc.INVALID_VALUES[0], how))
+                if not _doc.occ(par, "N"):
+                    ops.append(("set", pi, "N", "n", how))
+            for how in ("pop", "remove", "view"):
+                ops.append(("del", pi, "Zz-absent", how))
+            ops.append(("first", pi, ("Zz-absent", 0)))
+            ops.append(("after", pi, k0, ("tok", k0, 0) if isinstance(k0, str) else ("tok",) + tuple(k0)))
+    for how in ("from_dict", "from_kvpairs"):
+        for i in range(len(ps) + 1):
+            if small and 0 < i < len(ps):
+                continue
+            ops.append(("insert", i, (("@", how),) + NEWPARS[1]))
+        ops.append(("append", (("@", how),) + NEWPARS[1]))
+    ops.append(("append", (("@", "from_kvpairs"),) + NEWPAR_DUP))
+    ops.append(("insert", 0, (("@", "from_kvpairs"),) + NEWPAR_DUP))
+    return ops
+
+
+NEWPAR_DUP = (("X", "y"), ("Y", "w\n ww"), ("X", "z"))
+
+
+def ops_routes_small(doc):
+    return ops_routes(doc, small=True)
+
+
+def route_docs2(seed):
+    ds = docs(seed)
+    return [ds[2], ds[9], ds[12]]
+
+
 def large_docs(seed):
     """more fields, more occurrences, longer values than the depth-2 documents (explored to depth 1, thorough 2)"""
     long_v = "x" * 120
@@ -149,15 +245,49 @@ def large_docs(seed):
 def units(tier, seed):
     out = [{"doc": d, "i": i} for i, d in enumerate(docs(seed))]
     out += [{"doc": d, "i": 1000 + i, "large": True} for i, d in enumerate(large_docs(seed))]
+    out += [{"routes": d, "i": 3000 + i} for i, d in enumerate(docs(seed))]
+    out += [{"routes2": d, "i": 4000 + i, "first": first} for i, d in enumerate(route_docs2(seed))
+            for first in ("route", "default")]
+    out += [{"origin": o, "docs": docs(seed), "i": 5000 + n} for n, o in enumerate(_doc.ORIGINS[1:])]
     return out
 
 
 def unit_cost(u, tier):
-    return sum(len(it[1]) for it in u["doc"] if it[0] == "par") ** 3
+    if "origin" in u:
+        return 60
+    n = sum(len(it[1]) for it in u.get("doc", u.get("routes", u.get("routes2"))) if it[0] == "par") ** 3
+    return n * 4 if "routes2" in u else n // 2 if "routes" in u else n
 
 
 def run_unit(u, tier, seed):
     part = core.Part()
+    if "routes" in u:
+        base = {"doc": u["routes"], "route": {"wide": True}}
+        _doc.explore(part, u["routes"], ops_routes, 1, 0, NL, base)
+        return part
+    if "routes2" in u:
+        base = {"doc": u["routes2"], "route": {"wide": True}}
+        # (thorough: every route operation instead of the reduced set, still two levels)
+        r = ops_routes_small if tier == "quick" else ops_routes
+        if u["first"] == "route":
+            _doc.explore(part, u["routes2"], r, 2, 0, NL, base, ops2_fn=ops_small)
+        else:
+            _doc.explore(part, u["routes2"], ops_small, 2, 0, NL, base, ops2_fn=r)
+        return part
+    if "origin" in u:
+        for d in u["docs"]:
+            base = {"doc": d, "route": {"origin": u["origin"], "wide": True}}
+            if u["origin"] == "built":
+                if built_text(d):
+                    # (few documents can be built this way: the full alphabet, one level deeper)
+                    if tier == "quick":
+                        _doc.explore(part, d, ops_full, 1, 0, NL, base)
+                        _doc.explore(part, d, ops_small, 2, 0, NL, base)
+                    else:
+                        _doc.explore(part, d, ops_full, 2, 0, NL, base)
+                continue
+            _doc.explore(part, d, ops_small, 1 if tier == "quick" else 2, 0, NL, base)
+        return part
     td, gd = (2, 3) if tier == "quick" else (3, 4)
     nf = sum(len(it[1]) for it in u["doc"] if it[0] == "par")
     if nf >= 5 and tier == "quick":
@@ -171,6 +301,24 @@ def run_unit(u, tier, seed):
     return part
 
 
+def built_text(spec):
+    """is the document exactly what from_dict() paragraphs appended to an empty file dump (unique names, `Name: value`
+    lines, one blank line between paragraphs, nothing else)?"""
+    doc = _doc.from_spec(spec)
+    for j, it in enumerate(doc):
+        if it[0] == "raw":
+            if it[1] != "\n" or j == 0 or j == len(doc) - 1 or doc[j - 1][0] != "par" or doc[j + 1][0] != "par":
+                return False
+        else:
+            names = [f.name.lower() for f in it[1]]
+            if len(set(names)) != len(names):
+                return False
+            for f in it[1]:
+                if f.comment or f.body != "%s:%s" % (f.name, _doc.raw_value(_doc.read_value(f.body))) or "#" in f.body:
+                    return False
+    return _doc.render(doc).endswith("\n")
+
+
 def replay(case):
     hist = []
     for op in case["history"]:
@@ -182,5 +330,5 @@ def replay(case):
                 if i < len(op) and isinstance(op[i], list):
                     op[i] = tuple(op[i])
         hist.append(tuple(op))
-    _d, bad = _doc.run_history(case["doc"], hist, NL)
+    _d, bad = _doc.run_history(case["doc"], hist, NL, case.get("route"))
     return bad
